@@ -28,10 +28,14 @@ def serial_bytes(n):
     return list((b"\x00" + b) if b[0] & 0x80 else b)
 
 
+RAW_FORMS = {"!empty": b"", "!null": b"\x05\x00"}      # the two other spellings of a raw value
+
+
 def mk(cid, attrs, serial=None, iuid=None, suid=None, profile="none", blanks=True, klass=""):
     subj = (", " if blanks else ",").join("%s=%s" % (keytxt(k), v) for k, v in attrs)
-    c = cfg(subj, serialNumber=serial, issuerUniqueId=("!binary:" + b64(iuid)) if iuid else None,
-            subjectUniqueId=("!binary:" + b64(suid)) if suid else None)
+    spell = lambda u: None if u is None else u if isinstance(u, str) else ("!binary:" + b64(u)) if u else None
+    c = cfg(subj, serialNumber=serial, issuerUniqueId=spell(iuid), subjectUniqueId=spell(suid))
+    iuid, suid = [RAW_FORMS[u] if isinstance(u, str) else u for u in (iuid, suid)]
     files = []
     if profile != "none":
         p = {"version": 1, "name": "prof"}
@@ -44,7 +48,7 @@ def mk(cid, attrs, serial=None, iuid=None, suid=None, profile="none", blanks=Tru
     tag = {"prop": "C03", "ent": "e", "class": klass,
            "attrs": [{"name": k if isinstance(k, str) else "", "oid": [] if isinstance(k, str) else k, "v": [ord(ch) for ch in v]} for k, v in attrs],
            "serial": serial_bytes(serial) if serial is not None else [],
-           "iuid": {"present": bool(iuid), "bytes": list(iuid or b"")}, "suid": {"present": bool(suid), "bytes": list(suid or b"")}}
+           "iuid": {"present": iuid is not None, "bytes": list(iuid or b"")}, "suid": {"present": suid is not None, "bytes": list(suid or b"")}}
     return case(cid, [(p, t if isinstance(t, str) else json.dumps(t)) for p, t in files], tag=tag)
 
 
@@ -87,6 +91,9 @@ def cases(ctx):
         add([("CN", "uid")], iuid=b, klass="uid")
         add([("CN", "uid")], suid=b[::-1], klass="uid")
         add([("CN", "uid")], iuid=b, suid=b, serial=77, klass="uid")
+    # the raw spellings !empty (a present, empty BIT STRING) and !null
+    for iu, su in [("!empty", None), (None, "!empty"), ("!empty", "!empty"), ("!null", None), (None, "!null"), ("!empty", "!null"), (b"\x00\xaa\x00", "!empty")]:
+        add([("CN", "uid raw")], iuid=iu, suid=su, klass="uid-raw")
     return out
 
 
